@@ -12,7 +12,7 @@ Definition pers_ok (s : sys) : Prop :=
 
 Lemma step_pers_ok : forall gc s st s', exec gc s st = Some s' -> pers_ok s -> pers_ok s'.
 Proof.
-  intros gc s st s' H I. unfold pers_ok in *. destruct st as [| | |tid| |gr sr]; cbn [exec] in H.
+  intros gc s st s' H I. unfold pers_ok in *. destruct st as [| | |tid|ftid| |gr sr]; cbn [exec] in H.
   - inversion H; subst; exact I.
   - inversion H; subst; exact I.
   - destruct (s_timer s); inversion H; subst; exact I.
@@ -28,6 +28,7 @@ Proof.
     + destruct (lock_free s); [|discriminate].
       destruct (mstate_eqb (s_state s) MAwake || (gc && negb (g =? s_gen s)%N)); inversion H; subst; cbn; [exact I|left; reflexivity].
     + discriminate.
+  - destruct (nth_error (s_threads s) ftid) as [[| | | | | | |]|]; try discriminate; inversion H; subst; exact I.
   - inversion H; subst; exact I.
   - inversion H; subst; cbn. left; reflexivity.
 Qed.
@@ -49,7 +50,7 @@ Proof. destruct m; reflexivity. Qed.
 
 Theorem step_edge_ok : forall gc s st s', pers_ok s -> exec gc s st = Some s' -> edge_ok (s_state s) (s_state s') = true.
 Proof.
-  intros gc s st s' I H. destruct st as [| | |tid| |gr sr]; cbn [exec] in H.
+  intros gc s st s' I H. destruct st as [| | |tid|ftid| |gr sr]; cbn [exec] in H.
   - inversion H; subst; cbn. destruct (s_state s); reflexivity.
   - inversion H; subst; cbn. destruct (s_state s); reflexivity.
   - destruct (s_timer s); inversion H; subst; cbn. destruct (s_state s); reflexivity.
@@ -66,6 +67,7 @@ Proof.
       * inversion H; subst; cbn. destruct (s_state s); reflexivity.
       * inversion H; subst; cbn. destruct (s_state s); reflexivity.
     + discriminate.
+  - destruct (nth_error (s_threads s) ftid) as [[| | | | | | |]|]; try discriminate; inversion H; subst; cbn; destruct (s_state s); reflexivity.
   - inversion H; subst; cbn. destruct (s_state s); reflexivity.
   - inversion H; subst; cbn. destruct gr.
     + destruct (s_state s); reflexivity.
@@ -157,8 +159,8 @@ Qed.
 
 Lemma step_gen_mono : forall gc s st s', exec gc s st = Some s' -> (s_gen s <= s_gen s')%N.
 Proof.
-  intros gc s st s' H. destruct st as [| | |tid| |gr sr]; cbn [exec] in H;
-    [| | | |inversion H; subst; cbn; lia|inversion H; subst; cbn; lia].
+  intros gc s st s' H. destruct st as [| | |tid|ftid| |gr sr]; cbn [exec] in H;
+    [| | | |destruct (nth_error (s_threads s) ftid) as [[| | | | | | |]|]; try discriminate; inversion H; subst; cbn; lia|inversion H; subst; cbn; lia|inversion H; subst; cbn; lia].
   - inversion H; subst; cbn; lia.
   - inversion H; subst; cbn; lia.
   - destruct (s_timer s); inversion H; subst; cbn; lia.
@@ -205,8 +207,8 @@ Proof.
     destruct (Nat.eqb tid tid') eqn:Eq.
     - destruct (nth_error (s_threads s) tid'); destruct Hp as [Hp|Hp]; try discriminate; inversion Hp; subst; [elim (N1 g')|elim (N2 g')]; reflexivity.
     - assert (g' <= s_gen s)%N by (apply (I tid' g'); exact Hp). lia. }
-  destruct st as [| | |tid| |gr sr]; cbn [exec] in H;
-    [| | | | |inversion H; subst; exfalso; unfold poll_at in Hp; cbn [s_threads] in Hp;
+  destruct st as [| | |tid|ftid| |gr sr]; cbn [exec] in H;
+    [| | | | | |inversion H; subst; exfalso; unfold poll_at in Hp; cbn [s_threads] in Hp;
                rewrite !nth_error_map in Hp; destruct (nth_error (s_threads s) tid') as [[]|]; cbn in Hp; destruct Hp; discriminate].
   - inversion H; subst. unfold poll_at in Hp; cbn [s_threads] in Hp.
     destruct Hp as [Hp|Hp]; apply nth_error_app_new in Hp as [Hp|Hp]; try discriminate; cbn; apply (I tid' g'); [left|right]; exact Hp.
@@ -239,6 +241,8 @@ Proof.
       destruct (mstate_eqb (s_state s) MAwake || (gc && negb (g =? s_gen s)%N));
         inversion H; subst; (eapply Hset; [| |reflexivity]; intros; discriminate).
     + discriminate.
+  - destruct (nth_error (s_threads s) ftid) as [[| | | | | | |]|] eqn:Hft; try discriminate;
+      inversion H; subst; (eapply Hset; [| |reflexivity]; intros; discriminate).
   - inversion H; subst. unfold poll_at in Hp; cbn [s_threads] in Hp.
     destruct Hp as [Hp|Hp]; apply nth_error_app_new in Hp as [Hp|Hp]; try discriminate; cbn; apply (I tid' g'); [left|right]; exact Hp.
 Qed.
